@@ -165,6 +165,7 @@ pub trait Col: Clone + 'static {
 
 const KEY_MAGIC: u32 = 0x4B45_5921;
 const TRK_MAGIC: u32 = 0x5452_4B21;
+const TRL_MAGIC: u32 = 0x5452_4C21;
 
 macro_rules! tracked {
     ($name:ident, $magic:expr, $tag:expr) => {
@@ -247,6 +248,8 @@ macro_rules! tracked {
 
 tracked!(Key, KEY_MAGIC, 1);
 tracked!(Trk, TRK_MAGIC, 15);
+// third tracked type: the LAST column of the 32-column archetype
+tracked!(Trl, TRL_MAGIC, 32);
 
 // ---------------------------------------------------------------------------------------------
 // Zero-sized types. Zed has Drop + a counting Clone; Zno is a plain ZST.
@@ -284,6 +287,43 @@ impl Col for Zed {
     fn make(_: u32, _: u32) -> Self {
         Zed::born();
         Zed
+    }
+    fn digest(&self) -> u64 {
+        0
+    }
+    fn expect(_: u32, _: u32) -> u64 {
+        0
+    }
+    fn set(&mut self, _: u32, _: u32) {}
+}
+
+/// Second zero-sized type with Drop (same registry counters as Zed): the last column of the 24-column archetype.
+pub struct Zee;
+
+impl Clone for Zee {
+    fn clone(&self) -> Self {
+        Zed::born();
+        Zee
+    }
+}
+
+impl Drop for Zee {
+    fn drop(&mut self) {
+        REG.with(|r| {
+            let mut r = r.borrow_mut();
+            r.z_live -= 1;
+            if r.z_live < 0 {
+                r.z_underflow += 1;
+            }
+        });
+    }
+}
+
+impl Col for Zee {
+    const TAG: u32 = 24;
+    fn make(_: u32, _: u32) -> Self {
+        Zed::born();
+        Zee
     }
     fn digest(&self) -> u64 {
         0
@@ -460,6 +500,26 @@ impl Col for Bxd {
     }
 }
 
+/// Heap-owning type in the FIRST column beyond 16 (position 17).
+#[derive(Clone)]
+pub struct Bxe(pub Box<u64>);
+
+impl Col for Bxe {
+    const TAG: u32 = 17;
+    fn make(uid: u32, val: u32) -> Self {
+        Bxe(Box::new(mix(uid, Self::TAG, val)))
+    }
+    fn digest(&self) -> u64 {
+        *self.0
+    }
+    fn expect(uid: u32, val: u32) -> u64 {
+        mix(uid, Self::TAG, val)
+    }
+    fn set(&mut self, uid: u32, val: u32) {
+        *self.0 = mix(uid, Self::TAG, val);
+    }
+}
+
 #[derive(Clone)]
 pub struct Opt(pub Option<Box<u32>>);
 
@@ -508,7 +568,8 @@ impl Col for Vek {
     }
 }
 
-// Sixteen further u32-sized columns, used only for the 17..32-column archetypes.
+// Thirteen further u32-sized columns, used only for the 17..32-column archetypes (positions 17, 24 and 32 are the
+// heap-owning Bxe, the zero-sized Drop type Zee and the tracked Trl).
 macro_rules! extra_cols {
     ($( $name:ident = $tag:expr ),*) => {
         $( plain_int!($name, u32, $tag); )*
@@ -516,6 +577,6 @@ macro_rules! extra_cols {
 }
 
 extra_cols!(
-    Xaa = 17, Xab = 18, Xac = 19, Xad = 20, Xae = 21, Xaf = 22, Xag = 23, Xah = 24,
-    Xai = 25, Xaj = 26, Xak = 27, Xal = 28, Xam = 29, Xan = 30, Xao = 31, Xap = 32
+    Xab = 18, Xac = 19, Xad = 20, Xae = 21, Xaf = 22, Xag = 23,
+    Xai = 25, Xaj = 26, Xak = 27, Xal = 28, Xam = 29, Xan = 30, Xao = 31
 );
